@@ -30,6 +30,11 @@ var c07Failing = []struct {
 	{"{{ '%s' | divided_by: '100%' }}", false, "%"},
 	{"{% cycle 'a' %}", false, "cycle"},
 	{"{{ undefined_name }}", false, "undefined"},
+	// failures in the header of a clause tag that begins on a later line than its block (c07ClauseLine)
+	{"{% if false %}\nx\n{% elsif 7 | divided_by: 0 %}y{% endif %}", false, "divided_by"},
+	{"{% case 1 %}\n{% when 2, (1..'a') %}y{% endcase %}", false, "convert"},
+	{"{% if false %}\n{% elsif 1 | %}y{% endif %}", true, "1 |"},
+	{"{% case 1 %}\n\n{% when %}y{% endcase %}", true, "syntax"},
 	{"{{ 1 + }}", true, "1 +"},
 	{"{% no_such_tag %}", true, "no_such_tag"},
 	{"{% assign = %}", true, "="},
@@ -39,6 +44,14 @@ var c07Failing = []struct {
 	// innermost failing tag wherever it is nested
 	{"{% comment %}x", true, "comment"},
 	{"{% raw %}x", true, "raw"},
+}
+
+// c07ClauseLine: the failing tag is a clause that begins this many lines after its block begins.
+var c07ClauseLine = map[string]int{
+	"{% if false %}\nx\n{% elsif 7 | divided_by: 0 %}y{% endif %}": 2,
+	"{% case 1 %}\n{% when 2, (1..'a') %}y{% endcase %}":           1,
+	"{% if false %}\n{% elsif 1 | %}y{% endif %}":                  1,
+	"{% case 1 %}\n\n{% when %}y{% endcase %}":                     2,
 }
 
 // c07Filler returns a well-formed multi-line piece placed before the failing construct: tags and
@@ -92,9 +105,13 @@ func VerifC07Template() {
 	path := []string{"", "dir/t.html", "./dir//t.html", "a/../t.html", "dir/"}[pk]
 	start := nd.Int()
 	nd.Assume(start >= 0 && start < 1<<40)
-	pre += c07Filler(nd.Choice(c07Fillers))
+	fk := nd.Choice(c07Fillers)
+	if c07ClauseLine[f.src] > 0 {
+		nd.Assume(fk <= 1 && pk <= 1) // clause headers: the placement matters, filler and path spelling do not
+	}
+	pre += c07Filler(fk)
 	src := pre + f.src + "\ntail" + suf
-	want := start + strings.Count(pre, "\n")
+	want := start + strings.Count(pre, "\n") + c07ClauseLine[f.src]
 	e := NewEngine()
 	e.StrictVariables()
 	tpl, perr := e.ParseTemplateLocation([]byte(src), path, start)
